@@ -27,6 +27,8 @@ type Scenario struct {
 	Check func(r *vs.Result) []vs.Failure
 	// Nontrivial classifies an outcome for the evidence counts (default: >1 goroutine or a fault).
 	MaxExec int
+	// Known classifies a failure as a listed known finding (id) or "" — known findings do not stop the search.
+	Known func(f vs.Failure) string
 }
 
 type point struct {
@@ -55,6 +57,7 @@ type Violation struct {
 	Clause   string       `json:"clause"`
 	Msg      string       `json:"msg"`
 	Choices  []int        `json:"choices"`
+	Known    string       `json:"known,omitempty"`
 	C        int          `json:"c"`
 	F        int          `json:"f"`
 	Obs      []string     `json:"observations,omitempty"`
@@ -85,6 +88,7 @@ type Stats struct {
 	EngineError  string   `json:"engine_error,omitempty"`
 	Violations   []Violation `json:"violations,omitempty"`
 	ViolationCnt int      `json:"violation_count"`
+	KnownCnt     int      `json:"known_count"`
 }
 
 type chooser struct {
@@ -216,12 +220,12 @@ func (ex *Explorer) verdict(res *vs.Result) []vs.Failure {
 }
 
 // Explore runs the scenario to its bounds (iterative context bounding on c).
-func Explore(sc *Scenario, deadline time.Time) Stats {
+func Explore(sc *Scenario, deadline time.Time) (result Stats) {
 	start := time.Now()
+	defer func() { result.WallS = time.Since(start).Seconds() }()
 	ex := &Explorer{sc: sc, Deadline: deadline, outcomes: map[uint64]struct{}{}, nontriv: map[uint64]struct{}{}}
 	ex.useCache = !sc.NoCache
 	ex.st = Stats{Scenario: sc.Name, BoundC: -2, BoundF: sc.F, Exhaustive: true}
-	defer func() { ex.st.WallS = time.Since(start).Seconds() }()
 
 	// determinism self-check: the default schedule twice, identical observations and points.
 	c1, r1 := ex.exec(nil, 0, 0, true, true)
@@ -259,9 +263,6 @@ func Explore(sc *Scenario, deadline time.Time) Stats {
 			break
 		}
 		ex.st.BoundC = c
-		if len(ex.st.Violations) > 0 {
-			break
-		}
 	}
 	ex.st.Outcomes = len(ex.outcomes)
 	ex.st.Nontrivial = len(ex.nontriv)
@@ -350,17 +351,38 @@ func (ex *Explorer) search(c, f int) bool {
 				ex.nontriv[oh] = struct{}{}
 			}
 			if fs := ex.verdict(&res); len(fs) > 0 {
-				ex.st.ViolationCnt++
-				if len(ex.st.Violations) < 3 && !ex.haveClause(fs[0].Clause) {
-					v := ex.confirm(ch, fs, c, f)
+				// split into listed known findings and others
+				var unk []vs.Failure
+				kid := ""
+				for _, f := range fs {
+					if ex.sc.Known != nil {
+						if id := ex.sc.Known(f); id != "" {
+							if kid == "" {
+								kid = id
+							}
+							continue
+						}
+					}
+					unk = append(unk, f)
+				}
+				if len(unk) > 0 {
+					ex.st.ViolationCnt++
+					v := ex.confirm(ch, unk, c, f)
 					if v == nil {
 						return false
 					}
 					ex.st.Violations = append(ex.st.Violations, *v)
-				}
-				if ex.st.ViolationCnt >= 200 {
-					ex.st.Capped = "violations"
+					ex.st.Capped = "stopped at first unlisted violation"
 					return false
+				}
+				ex.st.KnownCnt++
+				if !ex.haveKnown(kid) {
+					v := ex.confirm(ch, fs, c, f)
+					if v == nil {
+						return false
+					}
+					v.Known = kid
+					ex.st.Violations = append(ex.st.Violations, *v)
 				}
 			}
 		}
@@ -388,9 +410,9 @@ func (ex *Explorer) search(c, f int) bool {
 	return true
 }
 
-func (ex *Explorer) haveClause(c string) bool {
+func (ex *Explorer) haveKnown(id string) bool {
 	for _, v := range ex.st.Violations {
-		if v.Clause == c {
+		if v.Known == id {
 			return true
 		}
 	}
